@@ -349,7 +349,7 @@ Section LogRec.
       unfold get_singleton. rewrite (FactoryBasics_get_lookup_false (reg st2) n).
       destruct (match alookup n (L1 (reg st2)) with Some v => Some v | None => alookup n (L2 (reg st2)) end) as [e|].
       + destruct w as [wv|].
-        * destruct (stale_dependents vt st2 n); cbn [geff2].
+        * destruct (stale_dependents vt st2 n _); cbn [geff2].
           -- eapply grows_trans; [exact H2|]. apply grows_same; reflexivity.
           -- eapply grows_trans; [exact H2n|]. apply grows_same; reflexivity.
         * cbn [geff2]. eapply grows_trans; [exact H2|]. apply grows_same; reflexivity.
